@@ -62,6 +62,10 @@ def task_total(pr, repo):
         def thunk(ex, ctx, nd=nd):
             bridge = B('bridge')
             g = mkgroup(repo, 'g', nd, bridge=bridge)
+            # the statement is about EVERY group: also those that are not titrated / not reported (titrate-only, backbone ...)
+            g.attrs['titratable'] = B('titratable')
+            g.attrs['exclude_cys_from_results'] = B('excluded')
+            g.attrs['residue_type'] = 'CYS' if nd[1] else 'ASP'
             ex.call_function(fi, [], self_obj=g)
             ctx.oblige('TP%s: pka_value == model + desolvation terms + SUM of all listed determinants (99.99 if bridged)' % (nd,),
                        And(Implies(Not(bridge), inv(g)), Implies(bridge, g.attrs['pka_value'] == Sym(real_val(99.99)))))
@@ -409,6 +413,11 @@ def task_sections(pr, repo):
     pr.explore(ex, thunk, 'sections')
 
 
+def average_twins_task(pr, repo):
+    from . import C08
+    C08.task_average_twins(pr, repo)
+
+
 def average_task(pr, repo, n):
     from . import C08
     C08.task_average(pr, repo, n)
@@ -428,7 +437,7 @@ WRITERS = {
 
 def run(pr, repo):
     pr.parallel([(task_total, ()), (task_sequencing, ()), (task_swap, ()), (task_swap_once, ()), (task_average, ()),
-                 (task_render, ()), (task_sections, ()), (average_task, (2,))])
+                 (task_render, ()), (task_sections, ()), (average_task, (2,)), (average_twins_task, ())])
     for f, allowed in WRITERS.items():
         frames.clause(pr, repo, 'writers of .%s are the declared ones' % f, f, 'writers', allowed)
     pr.assumptions += ['A-REAL: float sums re-associate; the numeric text of the .pka rows (2 decimals) is checked by the '
